@@ -14,7 +14,7 @@ VERIF = os.path.dirname(os.path.dirname(os.path.abspath(__file__)))
 REPO = "/repo"
 EXTRA = {  # other checks that are expected to notice the change as well
     "C02a": ["C03"], "C03b": ["C02"], "C05b": ["C01"], "C06a": ["C09", "C13"], "C06b": ["C11", "C08"], "C08a": ["C05", "C04"], "C08b": ["C06", "C11"],
-    "C09a": ["C13", "C06"], "C09b": ["C11"], "C04a": ["C05"], "C13b": ["C09"], "C11a": ["C06"],
+    "C09a": ["C13", "C06"], "C09b": ["C11"], "C04a": ["C05"], "C13b": ["C09"], "C11a": ["C06"], "C09c": ["C11"],
 }
 
 
